@@ -557,6 +557,7 @@ def run_flight(ctx, base_monitor):
                       % (law, len(lst), detail),
                       {"part": "flight", "head": small.head, "ops": small.ops, "law": law, "detail": detail, "scenarios_failing": len(lst)})
     known = set(f["key"] for f in ctx.load_findings() if f["property"] == ctx.pid)
+    all_fails = list(fails)
     fails = [f for f in fails if f[1] not in known]
     mism = []
     for sc in scns:
@@ -634,10 +635,12 @@ def run_flight(ctx, base_monitor):
             nt.add(hash(tuple(map(repr, sig))))
     ctx.coverage["in_flight"] = {
         "evaluations": len(scns), "distinct_nontrivial": len(nt), "operations_executed": nops,
-        "rule": "seeded random histories on one group topic (2-5 users x 1-2 sessions, assorted modes): single requests (sub, pub - a third of the histories with a failing adapter call F k on some publishes -, leave, get data, get desc, unload, restart), BURSTS of 2-6 publishes dispatched back to back (one session / several sessions and users / sessions that are not attached) with the write loops of a chosen set of sessions (every publisher, the first publisher, everybody, nobody, a random set) held until the burst has been handled and every frame serialised when it is dequeued, and UNLOAD RACES (all sessions leave, kill timer fires, 0-2 sessions still attach and publish, the hub unregisters the instance, another session loads a second instance, publishes queued at the old instance and publishes / bursts at the new one interleave, the old instance exits, its sessions re-attach); non-trivial = at least one acknowledged number; distinct by (ops, replies)",
+        "rule": "seeded random histories on one group topic (2-5 users x 1-2 sessions, assorted modes): single requests (sub, pub - a third of the histories with a failing adapter call F k on some publishes -, leave, get data, get desc, unload, restart), BURSTS of 2-6 publishes dispatched back to back (one session / several sessions and users / sessions that are not attached) with the write loops of a chosen set of sessions (every publisher, the first publisher, everybody, nobody, a random set) held until the burst has been handled and every frame serialised when it is dequeued, and UNLOAD RACES (all sessions leave, kill timer fires, 0-2 sessions still attach and publish, the hub unregisters the instance, another session loads a second instance, publishes queued at the old instance and publishes / bursts at the new one interleave, the old instance exits, its sessions re-attach; in about a third of the races the unregistration lands INSIDE a publish handler of the old instance - its goroutine held at the entry of Save's first adapter call - and that publish completes at a random point among the requests on the second instance); non-trivial = at least one acknowledged number; distinct by (ops, replies)",
         "bursts": nbursts, "burst_sizes": bsizes, "acknowledgements_serialised_after_the_burst": held_acks,
         "unload_races_with_sessions_on_the_old_instance": races, "publishes_handled_by_an_unregistered_instance": zpubs,
         "of_which_refused_503": refused, "requests_handled_while_two_instances_exist": two_inst,
+        "unregistrations_inside_a_publish_handler": kinds.get("zfinish", 0),
+        "histories_showing_the_known_finding_unregistered_mid_publish": len(set(f[0].id for f in all_fails if f[1] == MID_KEY)),
         "acknowledged_numbers": acks, "op_kinds": kinds, "histories_cut_where_they_leave_the_model": len(outside),
         "correspondence_mismatches": len(mism), "monitor_failures": len(fails), "impl_wall_s": round(t_impl, 1),
         "samples": [{"head": sc.head, "ops": sc.ops} for sc in scns[:1]],
